@@ -372,6 +372,33 @@ func (k *c10k) boundedOf(c *bounds.Fn, v ssa.Value) bool {
 			return k.fieldBounded(ssau.FieldOwner(fa), ssau.FieldName(fa))
 		}
 	}
+	// a count kept in a map held by a structure of the repository (document
+	// frequencies and the like): as large as what is in memory, not as what a
+	// request asks for
+	var m ssa.Value
+	switch x := v.(type) {
+	case *ssa.Lookup:
+		m = x.X
+	case *ssa.Extract:
+		switch t := x.Tuple.(type) {
+		case *ssa.Lookup:
+			if x.Index == 0 {
+				m = t.X
+			}
+		case *ssa.Next:
+			if rg, ok := t.Iter.(*ssa.Range); ok && !t.IsString && x.Index == 2 {
+				m = rg.X
+			}
+		}
+	}
+	if m != nil {
+		if root := k.mapRoot(m, 0); strings.HasPrefix(root, "F:"+load.ModulePath) {
+			owner := strings.TrimPrefix(root, "F:")
+			if i := strings.LastIndex(owner, "."); i > 0 && !k.decoded[owner[:i]] {
+				return true
+			}
+		}
+	}
 	return false
 }
 
